@@ -3,10 +3,10 @@ CONSTANTS BlockLists = {"b1"}
           AllowLists = {"a1"}
           AsIsC = FALSE
           CosmC = FALSE
-          Configs <- ConfLong
-          ForcedBeh <- BehLong
-          SchedBeh <- BehLongSched
-          FileBeh <- BehLongFile
-          SetURLBeh <- BehNone
+          Configs <- ConfHTTP
+          ForcedBeh <- BehTiny
+          SchedBeh <- BehTiny
+          FileBeh <- BehTiny
+          SetURLBeh <- BehSetURL
           SetURLAsIs = FALSE
 INVARIANTS InvCoherent
